@@ -551,7 +551,13 @@ func (fc *FnCtx) enterLoop(li *loopInfo, in *State) *State {
 	}
 	sort.Strings(mk)
 	for _, k := range mk {
+		prev := hs.heap[k]
 		hs.heap[k] = tb.Fresh(fmt.Sprintf("L%d!%s", li.ordinal, k), fc.keySort[k])
+		if k == "alloc" && prev != nil {
+			// allocation only grows: whatever was allocated before the loop still is
+			r := tb.BoundVar("r", "Ref")
+			fc.assume(hs, tb.Quant(true, []*Term{r}, tb.Implies(tb.Select(prev, r), tb.Select(hs.heap[k], r)), tb.Select(hs.heap[k], r)))
+		}
 	}
 	li.headState = hs.clone()
 	if spec != nil {
